@@ -301,6 +301,42 @@ func runC08(c *Case) {
 		accepted++
 		checkRow("immediate", tk, "b = ?", id, want, cls+":key")
 	}
+	// unmentioned columns read NULL also when an older value of that column exists
+	// under a delete marker: one transaction (one write time), and a later one
+	for j, v := range vals {
+		if v == nil || j%5 != 0 {
+			continue
+		}
+		id := int64(5000 + j)
+		cls := c08Class(v)
+		for _, oneTx := range []bool{true, false} {
+			if oneTx {
+				conn.Exec("begin")
+			}
+			e1 := conn.Exec("insert into "+tv+"(k,a,b) values (?,?,?)", id, v, v)
+			var e2, e3 error
+			if e1 == nil {
+				e2 = conn.Exec("delete from "+tv+" where k = ?", id)
+			}
+			if e1 == nil && e2 == nil {
+				e3 = conn.Exec("insert into "+tv+"(k,b) values (?,?)", id, int64(j))
+			}
+			if oneTx {
+				if err := conn.Exec("commit"); err != nil {
+					e1 = err
+				}
+			}
+			if e1 != nil || e2 != nil || e3 != nil {
+				conn.Exec("rollback")
+				break // a value that cannot be stored; refusal is checked above
+			}
+			want := fmt.Sprintf("i:%d|NULL|i:%d", id, j)
+			checkRow("reinsert-without-column", tv, "k = ?", id, want, cls+":unmentioned-after-delete")
+			expV[want] = true
+			c.Count("reinserts_without_column", 1)
+			id += 100000
+		}
+	}
 	c.Count("values_accepted", int64(accepted))
 	dumpCheck := func(stage string, rowsV, rowsK []string, errV, errK error) {
 		for _, x := range []struct {
